@@ -20,6 +20,21 @@ CLAIMED = {
    note="SeamMap replaces the real RandomState by seeded permutations (all orders the HashMap contract allows); detector-local hash containers are not under the seed natively (audited order-insensitive).",
    technique="deterministic simulation: seeded search over listing/iteration/pattern-order schedules, byte-equality of reports across schedules of the same findings",
    engine="simproc"),
+ "C14": dict(level="exploration", design="§6 C14",
+   text="Complete table check over every documented name (read from the repository's docs and sample toml at run time) x 6 casings (acceptance, casing-independence, distinctness, default membership, selectability of every default, junk rejection, name->detector behaviour signature), plus seeded simulated process runs through the real Opts::new (clap on a simulated argv, toml file in the simulated world) judged by a small reference model of the flag/file/default resolution and by the journal (unknown name => non-zero status before any write).",
+   note="Trusted base: table configuration name -> detector function; generated toml files always carry all four keys; runs whose selected directory does not exist are not judged; main()'s five lines are mirrored by the driver (simbin runs the real main).",
+   technique="deterministic simulation of the process environment (argv, cwd, files present, exit status, effect ordering in the journal) against a reference model of option resolution; complete enumeration of the documented-name table",
+   engine="simproc"),
+ "C16": dict(level="fault_enumeration", design="§6 C16",
+   text="Differential simulation: the same walk with and without the inert files under the same schedule must agree and must not fail; every inert file carries a fault (invalid UTF-8, unparseable text, findings-stuffed valid Solidity, read->EIO, read->EACCES) so that touching it is consequential. The name-class x content-class x depth cross product is enumerated completely in every tier; tree shapes, random valid-Unicode names and schedules around it are seeded samples.",
+   note="Valid-Unicode names only; names with '.t.sol' in the middle not generated; read_dir failures and vanishing files not injected (property silent).",
+   technique="deterministic simulation with enumerated read/content faults on inert files, differential oracle against the same world without them, plus independent-walk reference model",
+   engine="simproc"),
+ "C18": dict(level="exploration", design="§6 C18",
+   text="Histories of 1-4 simulated process runs on an evolving in-memory world with four working-directory placements and six stale-report variants; after every run (successful or failed) the world may differ only in <cwd>/solstat_report.md, a successful run leaves it, and its bytes equal those of the identical run without the stale report.",
+   note="State-based verdict (write-temp-then-rename would pass); fully-qualified std::fs calls bypass the in-memory Env (simbin tier snapshots a real scratch tree); report write failures not injected.",
+   technique="deterministic simulation of run histories over a simulated file system with before/after state snapshots and a differential stale-report oracle",
+   engine="simproc"),
  "C03": dict(level="exploration", design="§6 C03",
    text="Seeded simulation of the real directory walkers over in-memory trees under adversarial listing orders, judged against an independent walk that calls the real per-file function on every eligible file (exact multiset equality). Sampling, not proof; the failing traces of this class are tiny (two files, one sub-directory, one transposition) and the quick tier hits the merge path thousands of times.",
    note="Trusts the per-file functions as their own oracle; std::fs is replaced by the in-memory Env behind the cfg seam (simbin tier runs the real binary on a real scratch tree); eligible files are screened valid inputs.",
